@@ -55,6 +55,83 @@ func genShapes(repo string) {
 		fmt.Fprintf(&b, "  (%s, %s)%s\n", leanStr(h), leanStrList(calls[h]), sep)
 	}
 	b.WriteString("]\n\n")
+	// the bookkeeping methods themselves: what each does to the three maps and which other methods it calls, with the
+	// nesting depth (number of enclosing if / for statements; 0 = unconditionally) — Diag.pushAll / insertChange /
+	// saveOne / clearSyntax are written after these
+	mpath := filepath.Join(repo, "langserver/diagnostics_manager.go")
+	mf, err := parser.ParseFile(fset, mpath, nil, 0)
+	if err != nil {
+		fail("parse %s: %v", mpath, err)
+	}
+	managers := []string{"pushAllDiagnosticsAgain", "pushAllChangeFileDiagnosticErr", "InsertChangeFileErr", "ClearChangeFileErr", "SaveOneFilePushAgain", "ClearFileSyntaxErr"}
+	mops := map[string][]string{}
+	selOfL := func(e ast.Expr) string {
+		if se, ok := e.(*ast.SelectorExpr); ok {
+			if id, ok := se.X.(*ast.Ident); ok && id.Name == "l" {
+				return se.Sel.Name
+			}
+		}
+		return ""
+	}
+	for _, d := range mf.Decls {
+		fd, ok := d.(*ast.FuncDecl)
+		if !ok || fd.Body == nil {
+			continue
+		}
+		var stack []ast.Node
+		depth := func() int {
+			n := 0
+			for _, x := range stack {
+				switch x.(type) {
+				case *ast.IfStmt, *ast.ForStmt, *ast.RangeStmt:
+					n++
+				}
+			}
+			return n
+		}
+		ast.Inspect(fd.Body, func(n ast.Node) bool {
+			if n == nil {
+				stack = stack[:len(stack)-1]
+				return true
+			}
+			switch x := n.(type) {
+			case *ast.CallExpr:
+				if name := selOfL(x.Fun); name != "" && !strings.HasPrefix(name, "send") {
+					mops[fd.Name.Name] = append(mops[fd.Name.Name], fmt.Sprintf("call:%s@%d", name, depth()))
+				}
+				if id, ok := x.Fun.(*ast.Ident); ok && id.Name == "delete" && len(x.Args) == 2 {
+					if name := selOfL(x.Args[0]); name != "" {
+						mops[fd.Name.Name] = append(mops[fd.Name.Name], fmt.Sprintf("del:%s@%d", name, depth()))
+					}
+				}
+			case *ast.AssignStmt:
+				for _, lhs := range x.Lhs {
+					if ie, ok := lhs.(*ast.IndexExpr); ok {
+						if name := selOfL(ie.X); name != "" {
+							mops[fd.Name.Name] = append(mops[fd.Name.Name], fmt.Sprintf("set:%s@%d", name, depth()))
+						}
+					} else if name := selOfL(lhs); name != "" {
+						mops[fd.Name.Name] = append(mops[fd.Name.Name], fmt.Sprintf("assign:%s@%d", name, depth()))
+					}
+				}
+			}
+			stack = append(stack, n)
+			return true
+		})
+	}
+	b.WriteString("/-- (bookkeeping method, its map updates and calls in source order, each with its if/for nesting depth) -/\n")
+	b.WriteString("def managerOps : List (String × List String) := [\n")
+	for i, h := range managers {
+		if _, ok := mops[h]; !ok {
+			fail("bookkeeping method %s not found in diagnostics_manager.go", h)
+		}
+		sep := ","
+		if i == len(managers)-1 {
+			sep = ""
+		}
+		fmt.Fprintf(&b, "  (%s, %s)%s\n", leanStr(h), leanStrList(mops[h]), sep)
+	}
+	b.WriteString("]\n\n")
 	// annotation keywords
 	kpath := filepath.Join(repo, "langserver/check/annotation/annotatelexer/annotate_token.go")
 	kf, err := parser.ParseFile(fset, kpath, nil, 0)
